@@ -109,18 +109,18 @@ fn run_entry(entry: &str, input: &[u8]) -> Option<bool> {
         "dkim" => {
             use lettre::message::dkim::*;
             let key = DkimSigningKey::new(include_str!("../../fixtures/dkim_ed25519.b64").trim(), DkimSigningAlgorithm::Ed25519).ok()?;
-            let mut m = Message::builder()
-                .from("a@b.c".parse().ok()?)
-                .to("x@y.z".parse().ok()?)
-                .subject(text())
-                .body(text())
-                .ok()?;
+            let mut mb = Message::builder().from("a@b.c".parse().ok()?).to("x@y.z".parse().ok()?).subject(text());
+            // a text that is a mailbox also goes into Cc (internationalised addresses are written as UTF-8)
+            if let Ok(cc) = text().parse::<lettre::message::Mailbox>() {
+                mb = mb.cc(cc);
+            }
+            let mut m = mb.body(text()).ok()?;
             for (h, b) in [(DkimCanonicalizationType::Relaxed, DkimCanonicalizationType::Relaxed), (DkimCanonicalizationType::Simple, DkimCanonicalizationType::Simple)] {
                 let cfg = DkimConfig::new(
                     "s".into(),
                     "d.example".into(),
                     DkimSigningKey::new(include_str!("../../fixtures/dkim_ed25519.b64").trim(), DkimSigningAlgorithm::Ed25519).ok()?,
-                    vec![HeaderName::new_from_ascii_str("From"), HeaderName::new_from_ascii_str("Subject")],
+                    vec![HeaderName::new_from_ascii_str("From"), HeaderName::new_from_ascii_str("Subject"), HeaderName::new_from_ascii_str("Cc")],
                     DkimCanonicalization { header: h, body: b },
                 );
                 m.sign(&cfg);
